@@ -164,6 +164,45 @@ CHECKS["C18"] = dict(level="model_checking", ref="DESIGN.md 5 C18",
          "state without a mutex is reached only by the free-running part. Two known findings (object visible before its "
          "creation completed; torn read of a token object under concurrent searches) are accepted only in the scoped "
          "situations ConcLin names and printed as KNOWN-FINDING after the model without the deviation rejects an example.")
+VALTECH = ("TLA+ specification of values as terms (P11Val) + TLC exhaustive state graphs + replay of every transition on "
+           "the library + independent reference implementation written out from the standards (vf/refcrypto.py) + TLC trace "
+           "validation (reference equality, term laws, one byte string per term)")
+CHECKS["C13"] = dict(level="model_checking", ref="DESIGN.md 0.1, 5 C13", tech=VALTECH,
+    text="TLC enumerates sequences of import / generate / wrap (AES_KEY_WRAP, AES_KEY_WRAP_PAD, AES_CBC, AES_CBC_PAD, RSA_PKCS, "
+         "RSA_PKCS_OAEP x wrapping key x wrapped key kind and length, incl. the RSA private key as PKCS#8, x IV) / damage (bit "
+         "flip, truncation) / unwrap (right and wrong key, mechanism and object class) / derive (ECB and CBC encrypt-data, "
+         "concatenation, DH and ECDH with peers whose shared secret starts with zero octets, x requested type and length) / "
+         "read-back. Every event carries the bytes the library produced and the bytes the reference computes from the same "
+         "inputs; TLC demands: blob = the standard's bytes (RSA blobs open under the reference), Unwrap(Wrap(k)) = k "
+         "(zero-padded for AES_KEY_WRAP), unwrapped keys not local / never-extractable / always-sensitive with the template "
+         "honoured, damaged or foreign blobs rejected WITHOUT creating an object, derived value = the definition cut to length "
+         "(DES parity), non-empty CKA_CHECK_VALUE = the standard value.",
+    note="Trusted: TLC, vf/refcrypto.py (self-tested against RFC 3394/5649/4493 vectors), libcrypto's single-block AES/DES. "
+         "Not modelled: CKA_WRAP_TEMPLATE / CKA_UNWRAP_TEMPLATE, DES3 wrapping keys, EC/DSA/DH private keys as wrapped "
+         "objects. Three fixes recorded (d2c8cef, 7cc798b, bacb4ad).")
+CHECKS["C10"] = dict(level="model_checking", ref="DESIGN.md 0.1, 5 C10", tech=VALTECH,
+    text="Every deterministic mode (AES ECB/CBC/CBC-PAD/CTR/GCM/CMAC, 3DES ECB/CBC-PAD/CMAC, HMAC-SHA1/256/512, RSA PKCS#1 "
+         "v1.5 with and without SHA-256) x key size x message length (0, whole blocks, a length across block boundaries) x way "
+         "of feeding the message (single-part, one part, uneven parts, too-small buffer first and retry) is a transition whose "
+         "result TERM does not contain the way of feeding: TLC demands one byte string per term, equal to the reference; the "
+         "inverse operation restores / verifies it; every altered variant (data, MAC, signature, GCM tag, IV, AAD, "
+         "truncation) is rejected. Randomised schemes (PSS, OAEP, PKCS#1 v1.5 encryption): the reference accepts the "
+         "library's output and the library the reference's. Digests; derived secrets (encrypt-data, concatenation, DH, ECDH).",
+    note="Trusted as C13. NOT covered yet: DSA, ECDSA / EdDSA signature values, X25519/X448, raw RSA, RSA > 1024 bits, GCM "
+         "IV / tag length ranges, CTR counter widths other than 128 (DESIGN.md 0.1 'Not covered').")
+CHECKS["C20"] = dict(level="model_checking", ref="DESIGN.md 0.1, 5 C20",
+    tech=VALTECH + "; the same behaviours under file/OpenSSL, db/OpenSSL, file/Botan, db/Botan in ONE trace validation; "
+         "P11Tok behaviours under both storage backends",
+    text="The behaviours of P11Val (keys as TOKEN objects, so every value goes through the storage backend) are replayed "
+         "under the four configurations, restricted to mechanisms both crypto backends advertise and can perform; each "
+         "execution must satisfy P11Val, and the bytes bound to every deterministic term (key values, check values, wrapped "
+         "blobs, ciphertexts, MACs, digests, deterministic signatures, derived secrets) must be identical in all four; "
+         "randomised outputs of every configuration are accepted by the independent reference and vice versa. Every "
+         "execution probes that the ECB family it advertises works. The token life cycle (P11Tok: initialisation, "
+         "re-initialisation, PINs and PIN status flags, objects, restart, fresh-process view) is replayed under file and db.",
+    note="Trusted as C13. Two known findings of the Botan build (ECB advertised but unusable with Botan 2.19; empty CBC "
+         "decryption) are printed as KNOWN-FINDING; fix be36086 recorded. The other sequential checks (C01-C12, C19) run on "
+         "file/OpenSSL; their thorough tiers add the db backend where the driver supports it.")
 NA = {
     "C17": "memory safety and arbitrary byte-level inputs are outside what a TLA+ specification and trace validation can "
            "observe (DESIGN.md 5 C17); crashes met while replaying are reported under the property whose check ran",
